@@ -222,17 +222,25 @@ func c02Model(h *HistSys, hist []Op, w *world.World) (*Finding, string) {
 							}
 						}
 					}
+					// (an IP that a filter has meanwhile handed to another pod of the app which is still waiting to be bound — e.g.
+					// after a failed provider call — is not in reserve any more)
+					k := keyOfSpec(h.pod(o.Op.A))
+					takenByOther := map[string]bool{}
+					for _, s := range o.Before {
+						if s.Alloc && s.Key != k.PoolPrefix() && s.Key != k.KeyInDB {
+							takenByOther[s.IP] = true
+						}
+					}
 					var free []string
 					ok := false
 					for ip := range appHeld {
-						if !inUse[ip] && dead[holder[ip]] && known[holder[ip]] {
+						if !inUse[ip] && !takenByOther[ip] && dead[holder[ip]] && known[holder[ip]] {
 							free = append(free, ip)
 							if ip == x {
 								ok = true
 							}
 						}
 					}
-					k := keyOfSpec(h.pod(o.Op.A))
 					for _, s := range o.Before {
 						if s.Alloc && s.Key == k.KeyInDB && s.IP == x {
 							ok = true // allocated to this very pod during an earlier filter
